@@ -5,6 +5,26 @@ COMMON_ASSUME = [
 ]
 NOT_APPLICABLE = {}
 PROPS = {
+    "C16": {
+        "claim": "Coq theorems (closed, no axioms) over an executable model of ic_principal's text codec (bitwise CRC-32, value-level RFC 4648 "
+                 "base32 without padding with data-encoding's acceptance conditions, dash grouping, case handling, the 29-byte limit read from "
+                 "the source): base32 decode.encode = id for every byte string; from_text(to_text p) = p for every principal of <= 29 bytes; "
+                 "from_text accepts a text EXACTLY when it is, up to letter case, the canonical text of a principal of <= 29 bytes and returns "
+                 "that principal (so wrong checksum, grouping, characters, length are all rejected); one text never denotes two principals. "
+                 "Tied to /repo by a differential run with exact error kinds over all <= 1-byte ids, sampled/all 2-byte ids, random ids to 40 "
+                 "bytes, and every single-character edit, case change, dash move, deletion and truncation of canonical texts.",
+        "note": "Trusted: Coq kernel, extraction, glue. Modelled not verified: crc32fast (modelled bitwise) and data-encoding BASE32_NOPAD "
+                "(modelled at the value level); their agreement with the model is established only by the differential run. The binary wire "
+                "form (flag, LEB length <= 29) is compared through IDLArgs::from_bytes and Decode!.",
+        "props_file": "props/C16.v",
+        "shards": (2, 16),
+        "rule": "cases: principal byte strings (all of length <= 1, 1/64 (quick) or all (thorough) of length 2, random up to 40, boundary lengths "
+                "28-31) through to_text / try_from_slice / from_slice / TryFrom / binary wire form and a round-trip predicate (text, upper-cased text, "
+                "Display, Candid text and binary forms); texts: canonical texts and all single-character substitutions over [a-z2-7A-Z0189-], "
+                "case flips, dash insertions, deletions, truncations, de-dashed, non-ASCII suffix, random texts. Non-trivial = id of >= 2 bytes / text of >= 8 chars.",
+        "assumptions": COMMON_ASSUME,
+        "trusted_base": ["modelled, not verified: crc32fast, data-encoding BASE32_NOPAD"],
+    },
     "C09": {
         "claim": "Coq theorems (closed, no axioms) over executable mirrors of every (S)LEB128 codec in the code: Nat::decode, Int::decode, the "
                  "typed deserializer's 9-byte fast paths with their fall-backs, and the 128-bit decoders map EVERY terminated byte string of ANY "
